@@ -109,6 +109,13 @@ func (e *Exec) lookupIdent(env *SpecEnv, name string) (TV, bool) {
 			}
 		}
 	}
+	for i := len(e.synthAlias) - 1; i >= 0; i-- {
+		if e.synthAlias[i].name == name && env.scopeSt != nil {
+			if t, ok := env.scopeSt.vars[e.synthAlias[i].ctr]; ok {
+				return TV{t, e.synthAlias[i].ctr.Type()}, true
+			}
+		}
+	}
 	if env.scopeSt != nil && env.scopePos.IsValid() {
 		if sc := e.innermostScope(env.scopePos); sc != nil {
 			if _, obj := sc.LookupParent(name, env.scopePos); obj != nil {
